@@ -355,9 +355,17 @@ func doDeep(n int, kind string) string {
 			return "panic " + strings.ReplaceAll(r, " ", "/")
 		}
 		return "ok"
-	case <-time.After(libSlow):
+	case <-time.After(deepDeadline(n)):
 		return "panic slow"
 	}
+}
+
+// deepDeadline bounds all seven entry points together on a script nested n deep. The bound is there to expose
+// super-linear blow-ups (without memoisation 30 levels take years), not to time the code: the deepest
+// thorough-tier case (5000 levels, 5 s on an idle machine) must not become an alarm on a busy one. Each
+// entry point is additionally judged against libSlow by guarded.
+func deepDeadline(n int) time.Duration {
+	return 3*libSlow + time.Duration(n/25)*time.Second
 }
 
 // doParallel: exec.Parallel on k cheap algorithms and the target 5.
